@@ -12,7 +12,7 @@ Section TdInd.
   Hypothesis HNode : forall bs ents, Forall (fun kv => P (snd kv)) ents -> P (Node bs ents).
   Hypothesis HLazy : forall sd ms, Forall P ms -> P (Lazy sd ms).
   Hypothesis HTCls : forall c inner, P inner -> P (TCls c inner).
-  Hypothesis HNData : forall bs p, P (NData bs p).
+  Hypothesis HNData : forall bs pl, P (NData bs pl).
   Hypothesis HNStack : forall items, Forall P items -> P (NStack items).
   Fixpoint td_ind' (t : td) : P t :=
     match t with
@@ -24,7 +24,7 @@ Section TdInd.
         HLazy sd ms ((fix go (l : list td) : Forall P l :=
                         match l with [] => Forall_nil _ | x :: r => Forall_cons x (td_ind' x) (go r) end) ms)
     | TCls c inner => HTCls c inner (td_ind' inner)
-    | NData bs p => HNData bs p
+    | NData bs pl => HNData bs pl
     | NStack items =>
         HNStack items ((fix go (l : list td) : Forall P l :=
                           match l with [] => Forall_nil _ | x :: r => Forall_cons x (td_ind' x) (go r) end) items)
@@ -384,6 +384,17 @@ Qed.
 Lemma load_record_coll : forall files k c, is_leaf c = false -> load_record files k (entry_record c) = Ok RPath.
 Proof. intros files k c H. destruct c; try discriminate; reflexivity. Qed.
 
+Lemma load_records_cons : forall files k r m,
+  load_records files ((k, r) :: m)
+  = bind (load_record files k r) (fun rk =>
+    bind (load_records files m) (fun acc =>
+      match rk with
+      | RLeaf t => Ok ((k, t) :: fst acc, snd acc)
+      | RPath => Ok (fst acc, k :: snd acc)
+      | RSkip => Ok acc
+      end)).
+Proof. reflexivity. Qed.
+
 Lemma load_records_spec : forall o es files,
   NoDup (map fst es) -> Forall (entry_ok o) es ->
   (forall k l, In (k, Leaf l) es -> fget (FLeaf k) files = Some (CCells (ldtype l) (lcells l))) ->
@@ -393,12 +404,13 @@ Proof.
   intros o es files. induction es as [|[k x] es IH]; intros Hnd Hok Hf.
   - reflexivity.
   - inversion Hnd; subst. inversion Hok as [|? ? Hx Hok']; subst.
-    cbn [recs map app fst snd load_records].
-    assert (IH' := IH H2 Hok' (fun k l Hin => Hf k l (or_intror Hin))). fold (recs es). rewrite IH'.
+    change (recs ((k, x) :: es)) with ((k, entry_record x) :: recs es).
+    rewrite <- app_comm_cons, load_records_cons.
+    assert (IH' := IH H2 Hok' (fun k l Hin => Hf k l (or_intror Hin))).
     destruct (is_leaf x) eqn:Ex.
-    + destruct x as [l| | | | |]; try discriminate.
-      rewrite (load_record_leaf o files k l Hx (Hf k l (or_introl eq_refl))). reflexivity.
-    + rewrite (load_record_coll files k x Ex). cbn [bind fst snd].
+    + destruct x as [l| | | | |]; try discriminate. cbn [entry_record].
+      rewrite (load_record_leaf o files k l Hx (Hf k l (or_introl eq_refl))). cbn [bind]. rewrite IH'. reflexivity.
+    + rewrite (load_record_coll files k x Ex). cbn [bind]. rewrite IH'. cbn [bind fst snd].
       destruct x; try discriminate; reflexivity.
 Qed.
 
@@ -429,4 +441,433 @@ Proof.
       { apply existsb_exists. exists k. split; [apply (Hp (k, x)); now left|apply String.eqb_refl]. }
       rewrite H0. cbn in Hdec. rewrite Hdec. cbn [bind]. fold decode_subs.
       rewrite (IH sl' F2'); auto. cbn [bind]. rewrite adopt_root_norm; auto.
+Qed.
+
+Lemma fget_meta_leaf_files : forall es, fget FMeta (leaf_files es) = None.
+Proof.
+  induction es as [|[k x] es IH]; cbn; auto. unfold leaf_files in *. cbn. destruct x; cbn; auto.
+Qed.
+
+Lemma node_roundtrip : forall o bs ents,
+  like o = false -> keys_ok ents -> Forall (entry_ok o) ents ->
+  Forall (fun kv => match snd kv with NData b _ => shape_eqb b bs = true | _ => True end) ents ->
+  exists d, save_over o (Node bs ents) empty_dir = Ok d /\ decode d = Ok (norm (Node bs ents)).
+Proof.
+  intros o bs ents Hlike Hkeys Hok Hbs. destruct Hkeys as [Hnd Hres].
+  destruct (save_ents_spec o ents [] [] Hlike Hnd) as (sl & E & F2); auto.
+  unfold empty_dir. rewrite save_over_node, E. cbn [bind fst snd List.app].
+  eexists. split; [reflexivity|].
+  rewrite fset_fresh by apply fget_meta_leaf_files.
+  rewrite decode_dir. unfold load_top.
+  rewrite fget_app_none by apply fget_meta_leaf_files. cbn [fget fname_eqb].
+  rewrite node_meta_ok by (split; auto).
+  set (tail3 := [("shape", jshape bs); ("device", JStr "cpu"); ("_type", JStr "TensorDict")]).
+  assert (Et : sget "_type" (recs ents ++ tail3) = Some (JStr "TensorDict")).
+  { rewrite sget_app_none by (now apply sget_recs_reserved). reflexivity. }
+  assert (Es : sget "shape" (recs ents ++ tail3) = Some (jshape bs)).
+  { rewrite sget_app_none by (now apply sget_recs_reserved). reflexivity. }
+  assert (Ed : jdel "device" (jdel "shape" (recs ents ++ tail3)) = recs ents ++ [("_type", JStr "TensorDict")]).
+  { rewrite jdel_app_none by (now apply sget_recs_reserved). cbn [tail3 jdel String.eqb].
+    rewrite jdel_app_none by (now apply sget_recs_reserved). reflexivity. }
+  rewrite Et. cbn [String.eqb Ascii.eqb Bool.eqb]. cbv beta iota. unfold load_node. rewrite Es, jshape_of_jshape, Ed.
+  rewrite (load_records_spec o ents); auto.
+  2:{ intros k l Hin. apply fget_app_some. now apply fget_leaf_files_some. }
+  cbn [bind fst snd].
+  rewrite (load_subs_spec o bs _ ents sl F2); auto.
+  intros kv Hin. now apply in_map.
+Qed.
+
+(* ------------------------------------------------------------------ lazy stacks *)
+Fixpoint idx (i : nat) (dl : list dir) : list (string * dir) :=
+  match dl with [] => [] | d :: r => (string_of_nat i, d) :: idx (S i) r end.
+
+Lemma sget_idx_none : forall dl i n, n < i -> sget (string_of_nat n) (idx i dl) = None.
+Proof.
+  induction dl as [|d dl IH]; intros i n Hn; cbn; auto.
+  destruct (String.eqb (string_of_nat n) (string_of_nat i)) eqn:E.
+  - apply String.eqb_eq, string_of_nat_inj in E. lia.
+  - apply IH. lia.
+Qed.
+
+Lemma sget_idx_beyond : forall dl i n, i + List.length dl <= n -> sget (string_of_nat n) (idx i dl) = None.
+Proof.
+  induction dl as [|d dl IH]; intros i n Hn; cbn in *; auto.
+  destruct (String.eqb (string_of_nat n) (string_of_nat i)) eqn:E.
+  - apply String.eqb_eq, string_of_nat_inj in E. lia.
+  - apply IH. lia.
+Qed.
+
+Lemma save_members_spec : forall o ms i subs0,
+  (forall j, i <= j -> sget (string_of_nat j) subs0 = None) ->
+  Forall (fun m => exists d, saved_ok o m d) ms ->
+  exists dl, save_members (save_over o) ms i subs0 = Ok (subs0 ++ idx i dl) /\ Forall2 (saved_ok o) ms dl.
+Proof.
+  intros o ms. induction ms as [|m ms IH]; intros i subs0 Hfresh Hok.
+  - exists []. cbn. rewrite app_nil_r. auto.
+  - inversion Hok as [|? ? (d & Hd) Hok']; subst.
+    cbn [save_members]. rewrite (sub_dir_fresh _ _ (Hfresh i (le_n i))). rewrite (proj1 Hd). cbn [bind].
+    rewrite jset_fresh by (apply Hfresh; lia).
+    destruct (IH (S i) (subs0 ++ [(string_of_nat i, d)])) as (dl & E & F2); auto.
+    { intros j Hj. rewrite sget_app_none by (apply Hfresh; lia). cbn.
+      destruct (String.eqb (string_of_nat j) (string_of_nat i)) eqn:E; auto.
+      apply String.eqb_eq, string_of_nat_inj in E. lia. }
+    exists (d :: dl). split; [|constructor; auto].
+    fold (save_members (save_over o)). rewrite E. cbn. now rewrite <- app_assoc.
+Qed.
+
+Lemma sget_decode_subs : forall subs k, sget k (decode_subs subs) = option_map decode (sget k subs).
+Proof. induction subs as [|[k' d] subs IH]; intro k; cbn; auto. destruct (String.eqb k k'); auto. Qed.
+
+Lemma load_members_spec : forall rl (ds : list (string * res td)) i fuel,
+  (forall j t, nth_error rl j = Some t -> sget (string_of_nat (i + j)) ds = Some (Ok t)) ->
+  sget (string_of_nat (i + List.length rl)) ds = None -> List.length rl < fuel ->
+  load_members fuel i ds = Ok rl.
+Proof.
+  induction rl as [|t rl IH]; intros ds i fuel Hget Hend Hfuel; destruct fuel as [|f]; try (cbn in Hfuel; lia).
+  - cbn in *. rewrite Nat.add_0_r in Hend. now rewrite Hend.
+  - cbn [load_members]. specialize (Hget 0 t eq_refl) as H0. rewrite Nat.add_0_r in H0. rewrite H0. cbn [bind].
+    rewrite (IH ds (S i) f); auto.
+    + intros j t' Hj. replace (S i + j) with (i + S j) by lia. apply Hget. exact Hj.
+    + cbn in Hend. replace (S i + List.length rl) with (i + S (List.length rl)) by lia. exact Hend.
+    + cbn in Hfuel. lia.
+Qed.
+
+Lemma sget_idx_nth : forall dl i j d, nth_error dl j = Some d -> sget (string_of_nat (i + j)) (idx i dl) = Some d.
+Proof.
+  induction dl as [|d0 dl IH]; intros i j d Hj; [destruct j; discriminate|].
+  destruct j as [|j]; cbn in *.
+  - inversion Hj; subst. rewrite Nat.add_0_r. now rewrite String.eqb_refl.
+  - destruct (String.eqb (string_of_nat (i + S j)) (string_of_nat i)) eqn:E.
+    + apply String.eqb_eq, string_of_nat_inj in E. lia.
+    + replace (i + S j) with (S i + j) by lia. now apply IH.
+Qed.
+
+Lemma length_decode_subs : forall subs, List.length (decode_subs subs) = List.length subs.
+Proof. induction subs as [|[k d] subs IH]; cbn; auto. Qed.
+Lemma length_idx : forall dl i, List.length (idx i dl) = List.length dl.
+Proof. induction dl; intros; cbn; auto. Qed.
+
+Lemma jnat_of_jnat : forall n, jnat_of (jnat n) = Some n.
+Proof. intro n. unfold jnat_of, jnat. destruct (Z.of_nat n <? 0)%Z eqn:E; [apply Z.ltb_lt in E; lia|]. now rewrite Nat2Z.id. Qed.
+
+Lemma Forall2_length' : forall {A B} (R : A -> B -> Prop) l1 l2, Forall2 R l1 l2 -> List.length l1 = List.length l2.
+Proof. induction 1; cbn; auto. Qed.
+
+Lemma lazy_roundtrip : forall o sd ms,
+  ms <> [] -> Forall (fun m => exists d, saved_ok o m d) ms -> Forall (fun m => is_collection m = true) ms ->
+  exists d, save_over o (Lazy sd ms) empty_dir = Ok d /\ decode d = Ok (norm (Lazy sd ms)).
+Proof.
+  intros o sd ms Hne Hok Hcoll.
+  destruct (save_members_spec o ms 0 [] (fun _ _ => eq_refl) Hok) as (dl & E & F2).
+  unfold empty_dir. rewrite save_over_lazy, E. cbn [bind List.app fset].
+  eexists. split; [reflexivity|].
+  rewrite decode_dir. unfold load_top. cbn [fget fname_eqb sget String.eqb Ascii.eqb Bool.eqb]. cbv beta iota.
+  unfold load_lazy. cbn [sget String.eqb Ascii.eqb Bool.eqb]. cbv beta iota. rewrite jnat_of_jnat.
+  rewrite (load_members_spec (norm_list ms)).
+  - cbn [bind]. rewrite norm_lazy. destruct ms; [congruence|reflexivity].
+  - intros j t Hj. cbn [Nat.add]. rewrite sget_decode_subs.
+    assert (exists m, nth_error ms j = Some m /\ t = norm m) as (m & Hm & Ht).
+    { clear -Hj. revert j Hj. induction ms as [|m ms IH]; intros [|j] Hj; cbn in *; try discriminate.
+      - inversion Hj. eauto.
+      - eauto. }
+    assert (exists d, nth_error dl j = Some d /\ saved_ok o m d) as (d & Hd & Hs).
+    { clear -F2 Hm. revert j Hm. induction F2; intros [|j] Hm; cbn in *; try discriminate.
+      - inversion Hm; subst. eauto.
+      - eauto. }
+    pose proof (sget_idx_nth dl 0 j d Hd) as G. cbn [Nat.add] in G. rewrite G. cbn [option_map]. rewrite (proj2 Hs). subst t.
+    rewrite Forall_forall in Hcoll. assert (is_collection m = true) by (apply Hcoll; eapply nth_error_In; eauto).
+    destruct m; try discriminate; reflexivity.
+  - cbn [Nat.add]. rewrite sget_decode_subs. rewrite sget_idx_beyond; auto.
+    assert (List.length (norm_list ms) = List.length ms) by (clear; induction ms; cbn; auto).
+    rewrite H. rewrite (Forall2_length' _ _ _ F2). lia.
+  - rewrite length_decode_subs, length_idx.
+    assert (List.length (norm_list ms) = List.length ms) by (clear; induction ms; cbn; auto).
+    rewrite H, (Forall2_length' _ _ _ F2). lia.
+Qed.
+
+(* ------------------------------------------------------------------ tensorclass instances *)
+Lemma tc_roundtrip : forall o c inner,
+  builtin_cls c = false -> (exists d, saved_ok o inner d) -> is_collection inner = true ->
+  exists d, save_over o (TCls c inner) empty_dir = Ok d /\ decode d = Ok (norm (TCls c inner)).
+Proof.
+  intros o c inner Hc (d & Hs & Hd) Hcoll.
+  unfold empty_dir. cbn [save_over]. change (sub_dir "_tensordict" []) with empty_dir. rewrite Hs. cbn [bind jset fset].
+  eexists. split; [reflexivity|].
+  rewrite decode_dir. unfold load_top. cbn [fget fname_eqb]. cbn [sget]. rewrite String.eqb_refl.
+  unfold builtin_cls in Hc. apply orb_false_iff in Hc as [Hc H4]. apply orb_false_iff in Hc as [Hc H3].
+  apply orb_false_iff in Hc as [H1 H2]. rewrite H1, H2, H4, H3.
+  unfold load_tc. cbn [decode_subs sget]. rewrite String.eqb_refl. rewrite Hd. cbn [bind].
+  destruct inner; try discriminate; reflexivity.
+Qed.
+
+(* ------------------------------------------------------------------ NonTensorData *)
+Lemma ndata_roundtrip : forall o bs p,
+  payload_ok p = true ->
+  exists d, save_over o (NData bs p) empty_dir = Ok d /\ decode d = Ok (NData [] p).
+Proof.
+  intros o bs p Hp. unfold empty_dir. cbn [save_over]. unfold ndata_files, payload_ok in *.
+  destruct (is_json_serializable p) eqn:Es.
+  - destruct (plain_roundtrip p Hp) as (j & Hj1 & Hj2). rewrite Hj1. cbn [bind fset].
+    eexists. split; [reflexivity|].
+    rewrite decode_dir. unfold load_top. cbn [fget fname_eqb sget String.eqb Ascii.eqb Bool.eqb]. cbv beta iota.
+    unfold load_ndata. cbn [fget fname_eqb sget String.eqb Ascii.eqb Bool.eqb]. cbv beta iota. now rewrite Hj2.
+  - cbn [bind fset fname_eqb].
+    eexists. split; [reflexivity|].
+    rewrite decode_dir. unfold load_top. cbn [fget fname_eqb sget String.eqb Ascii.eqb Bool.eqb]. cbv beta iota.
+    unfold load_ndata. cbn [fget fname_eqb sget String.eqb Ascii.eqb Bool.eqb]. cbv beta iota. reflexivity.
+Qed.
+
+(* ------------------------------------------------------------------ NonTensorStack *)
+Definition from_list_items (nested : bool) := fix go (l : list payload) : list (res td) :=
+  match l with [] => [] | x :: r => (if nested then from_list x else Ok (NData [] x)) :: go r end.
+
+Lemma from_list_plist : forall l,
+  from_list (PList l)
+  = bind (all_ok (from_list_items (forallb is_plist l && forallb (fun x => Nat.eqb (plen x) (plen (hd PNone l))) l) l))
+         (fun items => if uniform_bs items then Ok (NStack items) else Raised EReinterpret).
+Proof. reflexivity. Qed.
+
+Definition stack_all := fix all (l : list td) : bool := match l with [] => true | x :: r => stack_ok x && all r end.
+Lemma stack_ok_nstack : forall items,
+  stack_ok (NStack items)
+  = negb (Nat.eqb (List.length items) 0) && stack_all items
+    && (forallb (fun x => match x with NData _ _ => true | _ => false end) items
+        || forallb (fun x => match x with NStack its => Nat.eqb (List.length its) (List.length (match hd (NData [] PNone) items with NStack i0 => i0 | _ => [] end)) | _ => false end) items)
+    && uniform_bs items.
+Proof. reflexivity. Qed.
+
+Lemma length_tolist_items : forall l, List.length (tolist_items l) = List.length l.
+Proof. induction l; cbn; auto. Qed.
+
+Lemma forallb_plen : forall (l : list td) n, (forall x, In x l -> plen (tolist x) = n) ->
+  forallb (fun x => Nat.eqb (plen x) n) (tolist_items l) = true.
+Proof.
+  induction l as [|x l IH]; intros n Hlen; cbn; auto. fold tolist_items.
+  rewrite (Hlen x (or_introl eq_refl)), Nat.eqb_refl. cbn. apply IH. intros y Hy. apply Hlen. now right.
+Qed.
+
+Lemma from_list_tolist : forall t, stack_ok t = true -> from_list (tolist t) = Ok t.
+Proof.
+  induction t using td_ind'; intro Hs; try discriminate.
+  - (* NonTensorData, batch size [] *)
+    cbn in Hs. destruct bs; try discriminate. cbn [tolist nest]. destruct pl; try discriminate; reflexivity.
+  - (* NonTensorStack *)
+    rewrite stack_ok_nstack in Hs. apply andb_true_iff in Hs as [Hs Hu]. apply andb_true_iff in Hs as [Hs Hkind].
+    apply andb_true_iff in Hs as [Hne Hall].
+    rewrite tolist_nstack, from_list_plist.
+    destruct items as [|x0 items0]; [discriminate|]. set (items := x0 :: items0) in *.
+    apply orb_true_iff in Hkind as [Hd|Hn].
+    + (* all items are NonTensorData *)
+      assert (Hfirst : is_plist (tolist x0) = false).
+      { cbn in Hd, Hall. apply andb_true_iff in Hd as [Hd _]. apply andb_true_iff in Hall as [Hx _].
+        destruct x0; try discriminate. cbn in Hx. destruct bs; try discriminate. cbn. destruct p; try discriminate; reflexivity. }
+      assert (Hnest : forallb is_plist (tolist_items items) && forallb (fun x => Nat.eqb (plen x) (plen (hd PNone (tolist_items items)))) (tolist_items items) = false).
+      { unfold items. cbn [tolist_items forallb]. rewrite Hfirst. reflexivity. }
+      rewrite Hnest.
+      assert (G : all_ok (from_list_items false (tolist_items items)) = Ok items).
+      { clear -Hd Hall. induction items as [|x l IH]; cbn; auto.
+        cbn in Hd, Hall. apply andb_true_iff in Hd as [Hx Hd]. apply andb_true_iff in Hall as [Hsx Hall].
+        fold tolist_items. fold (from_list_items false). rewrite IH by assumption. cbn.
+        destruct x; try discriminate. cbn in Hsx. destruct bs; try discriminate. reflexivity. }
+      rewrite G. cbn [bind]. now rewrite Hu.
+    + (* all items are NonTensorStacks of one length *)
+      assert (Hnest : forallb is_plist (tolist_items items) && forallb (fun x => Nat.eqb (plen x) (plen (hd PNone (tolist_items items)))) (tolist_items items) = true).
+      { apply andb_true_iff. split.
+        - clear -Hn. induction items as [|x l IH]; cbn; auto. cbn in Hn. apply andb_true_iff in Hn as [Hx Hn].
+          destruct x; try discriminate. cbn. fold tolist_items.
+          assert (forallb is_plist (tolist_items l) = true).
+          { clear -Hn. induction l as [|y l IH]; cbn; auto. cbn in Hn. apply andb_true_iff in Hn as [Hy Hn].
+            destruct y; try discriminate. cbn. fold tolist_items. auto. }
+          exact H.
+        - set (n0 := List.length (match hd (NData [] PNone) items with NStack i0 => i0 | _ => [] end)) in *.
+          assert (Hlen : forall x, In x items -> plen (tolist x) = n0).
+          { intros x Hx. rewrite forallb_forall in Hn. specialize (Hn x Hx). destruct x; try discriminate.
+            apply Nat.eqb_eq in Hn. rewrite tolist_nstack. cbn [plen]. now rewrite length_tolist_items. }
+          assert (Hhd : plen (hd PNone (tolist_items items)) = n0).
+          { unfold items. cbn [tolist_items hd]. apply Hlen. now left. }
+          rewrite Hhd. apply forallb_plen. exact Hlen. }
+      rewrite Hnest.
+      assert (G : all_ok (from_list_items true (tolist_items items)) = Ok items).
+      { clear -H Hall. induction items as [|x l IH]; cbn; auto.
+        cbn in Hall. apply andb_true_iff in Hall as [Hsx Hall]. inversion H; subst.
+        fold tolist_items. fold (from_list_items true). rewrite IH by assumption. rewrite (H2 Hsx). reflexivity. }
+      rewrite G. cbn [bind]. now rewrite Hu.
+Qed.
+
+Lemma norm_stack : forall t, stack_ok t = true -> norm t = t.
+Proof.
+  induction t using td_ind'; intro Hs; try discriminate; auto.
+  rewrite stack_ok_nstack in Hs. apply andb_true_iff in Hs as [Hs _]. apply andb_true_iff in Hs as [Hs _].
+  apply andb_true_iff in Hs as [_ Hall]. rewrite norm_nstack. f_equal.
+  induction items as [|x l IH]; cbn; auto. cbn in Hall. apply andb_true_iff in Hall as [Hx Hall]. inversion H; subst.
+  fold norm_list. rewrite (H2 Hx). rewrite IH by assumption. reflexivity.
+Qed.
+
+Lemma nstack_roundtrip : forall o items,
+  stack_ok (NStack items) = true -> payload_ok (tolist (NStack items)) = true ->
+  exists d, save_over o (NStack items) empty_dir = Ok d /\ decode d = Ok (norm (NStack items)).
+Proof.
+  intros o items Hs Hp. rewrite (norm_stack _ Hs).
+  unfold empty_dir. cbn [save_over]. unfold nstack_files, payload_ok in *.
+  destruct (is_json_serializable (tolist (NStack items))) eqn:Es.
+  - destruct (plain_roundtrip _ Hp) as (j & Hj1 & Hj2). rewrite Hj1. cbn [bind fset List.app].
+    eexists. split; [reflexivity|].
+    rewrite decode_dir. unfold load_top. cbn [fget fname_eqb sget String.eqb Ascii.eqb Bool.eqb]. cbv beta iota.
+    unfold load_nstack. cbn [fget fname_eqb sget String.eqb Ascii.eqb Bool.eqb]. cbv beta iota.
+    assert (exists js, j = JArr js) as (js & ->).
+    { rewrite tolist_nstack in Hj1. cbn in Hj1. destruct (_ (tolist_items items)) in Hj1; inversion Hj1; eauto. }
+    rewrite Hj2. now apply from_list_tolist.
+  - cbn [bind fset fname_eqb List.app].
+    eexists. split; [reflexivity|].
+    rewrite decode_dir. unfold load_top. cbn [fget fname_eqb sget String.eqb Ascii.eqb Bool.eqb]. cbv beta iota.
+    unfold load_nstack. cbn [fget fname_eqb sget String.eqb Ascii.eqb Bool.eqb]. cbv beta iota.
+    now apply from_list_tolist.
+Qed.
+
+(* ------------------------------------------------------------------ the round trip, for every valid structure *)
+Definition valid_ents (o : opts) (bs : list nat) := fix all (es : list (string * td)) : bool :=
+  match es with
+  | [] => true
+  | (_, x) :: r => valid o x && match x with NData b _ => shape_eqb b bs | _ => true end && all r
+  end.
+Definition valid_members (o : opts) := fix all (l : list td) : bool :=
+  match l with [] => true | x :: r => valid o x && is_collection x && all r end.
+
+Lemma valid_node : forall o bs ents,
+  valid o (Node bs ents) = nodupb (map fst ents) && forallb (fun kv => negb (reserved (fst kv))) ents && valid_ents o bs ents.
+Proof. reflexivity. Qed.
+Lemma valid_lazy : forall o sd ms, valid o (Lazy sd ms) = negb (Nat.eqb (List.length ms) 0) && valid_members o ms.
+Proof. reflexivity. Qed.
+
+Lemma saved_ok_all : forall o t, like o = false -> valid o t = true -> is_leaf t = false -> exists d, saved_ok o t d.
+Proof.
+  intros o t Hlike. induction t using td_ind'; intros Hv Hl; try discriminate.
+  - (* TensorDict *)
+    rewrite valid_node in Hv. apply andb_true_iff in Hv as [Hv Hents]. apply andb_true_iff in Hv as [Hnd Hres].
+    assert (Hok : Forall (entry_ok o) ents /\ Forall (fun kv => match snd kv with NData b _ => shape_eqb b bs = true | _ => True end) ents).
+    { clear Hnd Hres Hl. induction ents as [|[k x] ents IH]; [split; constructor|].
+      cbn in Hents. apply andb_true_iff in Hents as [Hx Hents]. apply andb_true_iff in Hx as [Hvx Hbx].
+      inversion H as [|? ? Hpx Hp]; subst. destruct (IH Hp Hents) as [A B]. split.
+      - constructor; [|exact A]. unfold entry_ok. cbn [snd] in *. destruct x; try (apply Hpx; auto; fail). exact Hvx.
+      - constructor; [|exact B]. cbn [snd]. destruct x; auto. }
+    destruct Hok as [Hok Hbs].
+    destruct (node_roundtrip o bs ents Hlike) as (d & Hd1 & Hd2); auto.
+    { split; [now apply nodupb_NoDup|]. rewrite forallb_forall in Hres. apply Forall_forall. intros kv Hin.
+      specialize (Hres kv Hin). now apply negb_true_iff in Hres. }
+    exists d. split; auto.
+  - (* lazy stack *)
+    rewrite valid_lazy in Hv. apply andb_true_iff in Hv as [Hne Hms].
+    assert (Hok : Forall (fun m => exists d, saved_ok o m d) ms /\ Forall (fun m => is_collection m = true) ms).
+    { clear Hne Hl. induction ms as [|m ms IH]; [split; constructor|].
+      cbn in Hms. apply andb_true_iff in Hms as [Hm Hms]. apply andb_true_iff in Hm as [Hvm Hcm].
+      inversion H as [|? ? Hpm Hp]; subst. destruct (IH Hp Hms) as [A B]. split.
+      - constructor; [|exact A]. apply Hpm; auto. destruct m; try discriminate; reflexivity.
+      - constructor; [exact Hcm|exact B]. }
+    destruct Hok as [Hok Hcoll].
+    destruct (lazy_roundtrip o sd ms) as (d & Hd1 & Hd2); auto.
+    { intro E. subst. discriminate. }
+    exists d. split; auto.
+  - (* tensorclass *)
+    cbn [valid] in Hv. apply andb_true_iff in Hv as [Hv Hcoll]. apply andb_true_iff in Hv as [Hc Hvi].
+    apply negb_true_iff in Hc.
+    destruct (tc_roundtrip o c t Hc) as (d & Hd1 & Hd2); auto.
+    { apply IHt; auto. destruct t; try discriminate; reflexivity. }
+    exists d. split; auto.
+  - (* NonTensorData *)
+    cbn [valid] in Hv. destruct (ndata_roundtrip o bs pl Hv) as (d & Hd1 & Hd2). exists d. split; auto.
+  - (* NonTensorStack *)
+    cbn [valid] in Hv. apply andb_true_iff in Hv as [Hs Hp].
+    destruct (nstack_roundtrip o items Hs Hp) as (d & Hd1 & Hd2). exists d. split; auto.
+Qed.
+
+Theorem decode_encode_lemma : forall o t, valid_root o t = true -> bind (encode o t) decode = Ok (norm t).
+Proof.
+  intros o t Hv. unfold valid_root in Hv. apply andb_true_iff in Hv as [Hv Hroot]. apply andb_true_iff in Hv as [Hv Hlike].
+  apply negb_true_iff in Hlike.
+  assert (Hl : is_leaf t = false) by (destruct t; auto; discriminate).
+  destruct (saved_ok_all o t Hlike Hv Hl) as (d & Hd1 & Hd2).
+  unfold encode. rewrite Hd1. cbn [bind]. rewrite Hd2. f_equal.
+  destruct t; auto. destruct bs; [reflexivity|discriminate].
+Qed.
+
+(* norm only reorders the entries of every node (tensors first) and marks tensors as living in the directory:
+   as nested mappings, t and norm t are the same *)
+Inductive same_mapping : td -> td -> Prop :=
+| SMLeaf : forall l l', lshape l = lshape l' -> ldtype l = ldtype l' -> lcells l = lcells l' -> same_mapping (Leaf l) (Leaf l')
+| SMNode : forall bs es es',
+    (forall k, sget k es = None <-> sget k es' = None) ->
+    (forall k a b, sget k es = Some a -> sget k es' = Some b -> same_mapping a b) ->
+    List.length es = List.length es' ->
+    same_mapping (Node bs es) (Node bs es')
+| SMLazy : forall sd ms ms', Forall2 same_mapping ms ms' -> same_mapping (Lazy sd ms) (Lazy sd ms')
+| SMTCls : forall c a b, same_mapping a b -> same_mapping (TCls c a) (TCls c b)
+| SMNData : forall bs p, same_mapping (NData bs p) (NData bs p)
+| SMNStack : forall l l', Forall2 same_mapping l l' -> same_mapping (NStack l) (NStack l').
+
+Lemma sget_norm_ents : forall es k, sget k (norm_ents es) = option_map norm (sget k es).
+Proof. induction es as [|[k' x] es IH]; intro k; cbn; auto. destruct (String.eqb k k'); auto. Qed.
+
+Lemma map_fst_norm_ents : forall es, map fst (norm_ents es) = map fst es.
+Proof. induction es as [|[k x] es IH]; cbn; auto. now rewrite IH. Qed.
+
+Lemma sget_filter_none : forall {A} (f : string * A -> bool) l k, sget k l = None -> sget k (filter f l) = None.
+Proof.
+  intros A f l k. induction l as [|[k' v] l IH]; cbn; auto.
+  destruct (String.eqb k k') eqn:E; [discriminate|]. intro H. destruct (f (k', v)); cbn; [rewrite E|]; auto.
+Qed.
+
+Lemma sget_partition : forall {A} (f : string * A -> bool) l k, NoDup (map fst l) ->
+  sget k (filter f l ++ filter (fun kv => negb (f kv)) l) = sget k l.
+Proof.
+  intros A f l k. induction l as [|[k' v] l IH]; intro Hnd; cbn; auto.
+  inversion Hnd as [|? ? Hk Hnd']; subst.
+  destruct (f (k', v)) eqn:Ef; cbn.
+  - destruct (String.eqb k k'); auto.
+  - destruct (String.eqb k k') eqn:E.
+    + apply String.eqb_eq in E. subst k'.
+      rewrite sget_app_none by (apply sget_filter_none; now apply sget_none_notin). cbn. now rewrite String.eqb_refl.
+    + destruct (sget k (filter f l)) eqn:G.
+      * rewrite (sget_app_some _ _ _ _ G). rewrite <- IH by auto. now rewrite (sget_app_some _ _ _ _ G).
+      * rewrite sget_app_none by exact G. cbn. rewrite E. rewrite <- IH by auto. now rewrite sget_app_none by exact G.
+Qed.
+
+Lemma length_partition : forall {A} (f : A -> bool) l, List.length (filter f l ++ filter (fun x => negb (f x)) l) = List.length l.
+Proof. intros A f l. induction l as [|x l IH]; cbn; auto. destruct (f x); cbn; [|rewrite app_length in *; cbn]; lia. Qed.
+
+Lemma norm_same_mapping : forall o t, valid o t = true -> same_mapping t (norm t).
+Proof.
+  intros o. induction t using td_ind'; intro Hv.
+  - constructor; reflexivity.
+  - rewrite valid_node in Hv. apply andb_true_iff in Hv as [Hv Hents]. apply andb_true_iff in Hv as [Hnd _].
+    apply nodupb_NoDup in Hnd. rewrite norm_node.
+    assert (Hnd' : NoDup (map fst (norm_ents ents))) by now rewrite map_fst_norm_ents.
+    constructor.
+    + intro k. rewrite (sget_partition (fun kv => is_leaf (snd kv))) by exact Hnd'. rewrite sget_norm_ents.
+      destruct (sget k ents); cbn; split; intro; congruence.
+    + intros k a b Ha Hb. rewrite (sget_partition (fun kv => is_leaf (snd kv))) in Hb by exact Hnd'.
+      rewrite sget_norm_ents, Ha in Hb. cbn in Hb. inversion Hb; subst.
+      assert (Hin : In (k, a) ents).
+      { clear -Ha. induction ents as [|[k' x] l IH]; cbn in *; [discriminate|].
+        destruct (String.eqb k k') eqn:E; auto. apply String.eqb_eq in E. inversion Ha; subst. now left. }
+      rewrite Forall_forall in H. apply (H (k, a) Hin).
+      clear -Hents Hin. induction ents as [|[k' x] l IH]; [contradiction|]. cbn in Hents.
+      apply andb_true_iff in Hents as [Hx Hl]. apply andb_true_iff in Hx as [Hx _].
+      destruct Hin as [E|Hin]; [inversion E; subst; exact Hx|auto].
+    + rewrite (length_partition (fun kv : string * td => is_leaf (snd kv))). clear. induction ents as [|[k x] l IH]; cbn; auto.
+  - rewrite valid_lazy in Hv. apply andb_true_iff in Hv as [_ Hms]. rewrite norm_lazy. constructor.
+    induction ms as [|m ms IH]; cbn; constructor.
+    + inversion H; subst. cbn in Hms. apply andb_true_iff in Hms as [Hm _]. apply andb_true_iff in Hm as [Hm _]. auto.
+    + inversion H; subst. cbn in Hms. apply andb_true_iff in Hms as [_ Hms]. apply IH; auto.
+  - cbn [valid] in Hv. apply andb_true_iff in Hv as [Hv _]. apply andb_true_iff in Hv as [_ Hv]. cbn [norm]. constructor. auto.
+  - constructor.
+  - cbn [valid] in Hv. apply andb_true_iff in Hv as [Hs _]. rewrite (norm_stack _ Hs). constructor.
+    clear. induction items; constructor; auto.
+    clear. induction a using td_ind'; try (constructor; auto; fail).
+    + constructor; auto; intros; try tauto. rewrite H0 in H1. inversion H1; subst.
+      assert (Hin : In (k, b) ents).
+      { clear -H0. induction ents as [|[k' x] l IH]; cbn in *; [discriminate|].
+        destruct (String.eqb k k') eqn:E; auto. apply String.eqb_eq in E. inversion H0; subst. now left. }
+      rewrite Forall_forall in H. apply (H (k, b) Hin).
+    + constructor. induction ms; constructor; inversion H; auto.
+    + constructor. induction items; constructor; inversion H; auto.
 Qed.
